@@ -11,8 +11,10 @@ import json
 import os
 import random
 import signal
+import shutil
 import subprocess
 import sys
+import tempfile
 import time
 import types
 from fractions import Fraction
@@ -932,18 +934,37 @@ def run_real(cfg):
     with patch('os.urandom', urandom_mock):
         random.seed(cfg.get('seed', 0))
         np.random.seed(cfg.get('seed', 0))
-        opt, objective, gen = optrun.make_optimiser(cfg, log)
+        tmp_hist = tempfile.mkdtemp(prefix='c15_hist_') if cfg.get('history_dir') == 'tmp' else None
+        rec['tmp_hist'] = tmp_hist
+        opt, objective, gen = optrun.make_optimiser(cfg, log, tmp_hist)
+        if cfg.get('keep_history') is False:
+            # optrun builds the requirements with keep_history=True; the switch is read at run time
+            opt.requirements.keep_history = False
         populational = cfg['optimiser'] in optrun.POPULATIONAL
         pops = rec['pops']
+        nog = cfg.get('num_of_generations')
+        # hard cap: a run whose limits do not fire is stopped (and reported) instead of running on
+        cap = (nog + 4) if nog is not None else 400
+        rec['completed'] = 0
 
         def cb(population, optimiser):
             keeper = optimiser.generations
-            pops.append({'label': optimiser.history.generations[-1].label or '',
+            # labels are derived from the step counter, not from the history (which may be switched off)
+            if rec['completed'] > sum(1 for p in pops if p['label'] == ''):
+                label = ''
+            elif not pops:
+                label = 'initial_assumptions'
+            else:
+                label = 'extended_or_final'
+            pops.append({'label': label,
                          'size': len(population),
                          'gen': keeper.generation_num, 'stag': keeper.stagnation_iter_count,
                          'minutes': _minutes(optimiser.timer.spent_time),
                          'stagdur': [int(round(keeper.stagnation_time_duration * 60)), 60],
                          'pop_size': int(optimiser.graph_optimizer_params.pop_size)})
+            if sum(1 for p in pops if p['label'] == '') > cap:
+                rec['stopped_by'] = 'hard cap of %d evolved populations' % cap
+                raise RunTimeout()
         opt.set_iteration_callback(cb)
         if populational:
             inner = opt._evolve_population
@@ -951,10 +972,12 @@ def run_real(cfg):
             def counted(evaluator):
                 rec['started'] += 1
                 try:
-                    return inner(evaluator)
+                    result = inner(evaluator)
                 except EvaluationAttemptsError:
                     rec['broke'] = True
                     raise
+                rec['completed'] += 1
+                return result
             opt._evolve_population = counted
         else:
             # random search: one loop iteration = one request for a new individual, whether or not its evaluation
@@ -963,6 +986,9 @@ def run_real(cfg):
 
             def counted_gen():
                 rec['started'] += 1
+                if rec['started'] > cap:
+                    rec['stopped_by'] = 'hard cap of %d iterations' % cap
+                    raise RunTimeout()
                 return inner_gen()
             opt._generate_new_individual = counted_gen
         t0 = time.time()
@@ -987,8 +1013,26 @@ def run_real(cfg):
         rec['wall_ms'] = int((time.time() - t0) * 1000)
         start = getattr(opt.timer, 'start', None)
         rec['end_minutes'] = _minutes(datetime.datetime.now() - start) if start else [0, 1]
-        rec['evolved_sizes'] = [len(g) for g in opt.history.generations if not g.label]
-        rec['labels'] = [g.label or '' for g in opt.history.generations]
+        # populations recorded without a step: the first is the initial one, the last one of a run that returned is the
+        # final choice, whatever lies between (before the first step) is the extended initial population
+        for k, p in enumerate(pops):
+            if p['label'] == 'extended_or_final':
+                p['label'] = 'final_choices' if (k == len(pops) - 1 and rec['outcome'] == 'ok') else 'extended_initial_assumptions'
+        rec['history_labels'] = [g.label or '' for g in opt.history.generations]
+        if populational:
+            # steps are counted through the iteration callback, not through the history
+            rec['evolved_sizes'] = [p['size'] for p in pops if p['label'] == '']
+            rec['labels'] = [p['label'] for p in pops]
+            rec['labels_match_history'] = (not opt.history.generations) or rec['history_labels'] == rec['labels'] \
+                or rec['outcome'] != 'ok'
+            rec['history_generations'] = len(opt.history.generations)
+        else:
+            rec['evolved_sizes'] = [len(g) for g in opt.history.generations if not g.label]
+            rec['labels'] = rec['history_labels']
+            rec['labels_match_history'] = True
+        if tmp_hist:
+            rec['history_files'] = sum(len(fs) for _, _, fs in os.walk(tmp_hist))
+            shutil.rmtree(tmp_hist, ignore_errors=True)
         rec['iters'] = int(getattr(opt, 'current_iteration_num', 0)) if not populational else 0
         rec['call_minutes'] = [_minutes(e['abs'] - start) for e in log] if (start and not populational) else []
         rec['objective_calls'] = len(log)
@@ -1094,6 +1138,11 @@ def make_configs(ctx):
             'diversity_check': rng.choice([-1, -1, 1, 2]),
             'seed': rng.randrange(10 ** 6),
         }
+        # history switched off (limits must not depend on it) / history also written to a directory
+        if rng.random() < 0.3:
+            cfg['keep_history'] = False
+        elif rng.random() < 0.12:
+            cfg['history_dir'] = 'tmp'
         if rng.random() < 0.2:
             cfg['objective'] = {'metrics': rng.choice([['size', 'depth'], ['plateau', 'neg_size']]), 'multi': True}
         # partially failing objectives: failed steps record nothing but are steps all the same
@@ -1140,9 +1189,13 @@ def judge_run(ctx, group, rec, flags):
     s = summarise(rec)
     if not term:
         ctx.violate(group, s, 'run did not terminate within %.0f s under limits num_of_generations=%s, timeout=%s min, '
-                              'early_stopping_iterations=%s, early_stopping_timeout=%s (stopped by the watchdog)' % (
+                              'early_stopping_iterations=%s, early_stopping_timeout=%s, keep_history=%s (stopped by %s)' % (
             rec.get('limit_s', 0), rec['cfg'].get('num_of_generations'), rec['cfg'].get('timeout_min'),
-            rec['cfg'].get('early_stopping_iterations'), rec['cfg'].get('early_stopping_timeout')))
+            rec['cfg'].get('early_stopping_iterations'), rec['cfg'].get('early_stopping_timeout'),
+            rec['cfg'].get('keep_history', True), rec.get('stopped_by', 'the watchdog')))
+    if not rec.get('labels_match_history', True):
+        ctx.disagree(group, s, 'labels derived from the step counter differ from the labels of the recorded history: %s vs %s' % (
+            rec.get('labels'), rec.get('history_labels')))
     if not ag:
         ctx.disagree(group, s, 'the loop model (counters, stop test before each step, stop test at the end) does not explain the observed run')
     if not acc:
@@ -1226,6 +1279,7 @@ def real_runs(ctx, started=None):
                   early_stopping_timeout=str(cfg.get('early_stopping_timeout')), timeout_min=str(cfg.get('timeout_min')),
                   progress_bar=bool(cfg.get('show_progress')), timer_terminated=rec.get('timer_terminated'),
                   failing_objective=bool(cfg['objective'].get('faults')), slow_population=bool(cfg.get('slow_calls')),
+                  history=('off' if cfg.get('keep_history') is False else 'directory' if cfg.get('history_dir') else 'memory'),
                   steps_beyond_recorded=min(max(rec['started'] - evolved, 0), 6))
         judge_run(ctx, 'runs', rec, flags)
     for rec in recs[:3]:
